@@ -1430,6 +1430,14 @@ func (self *BinaryServerProtocol) ProcessCommad(command protocol.ICommand) error
 			}
 
 			serverProtocol := NewTextServerProtocol(self.slock, self.stream)
+			if self.willCommands == nil {
+				self.glock.Lock()
+				if self.willCommands == nil {
+					self.willCommands = NewLockCommandQueue(2, 4, 8)
+				}
+				self.glock.Unlock()
+			}
+			serverProtocol.willCommands = self.willCommands
 			err = serverProtocol.Process()
 			if err != nil {
 				if err != io.EOF {
@@ -2398,6 +2406,14 @@ func (self *TextServerProtocol) ProcessCommad(command protocol.ICommand) error {
 			}
 
 			serverProtocol := NewTextServerProtocol(self.slock, self.stream)
+			if self.willCommands == nil {
+				self.glock.Lock()
+				if self.willCommands == nil {
+					self.willCommands = NewLockCommandQueue(2, 4, 8)
+				}
+				self.glock.Unlock()
+			}
+			serverProtocol.willCommands = self.willCommands
 			err = serverProtocol.Process()
 			if err != nil {
 				if err != io.EOF {
